@@ -12,6 +12,10 @@ import OFV.Proofs.C18Tpb
 import OFV.Proofs.C18Partition
 import OFV.Proofs.C18Pauli
 import OFV.Proofs.C18Async
+import OFV.Proofs.C18Pws4
+import OFV.Proofs.C18Pws5
+import OFV.Proofs.C18Binned
+import OFV.Proofs.C18Valid
 
 namespace OFV.C18
 open OFV.Model.C18 OFV.Spec.C18 OFV.Proofs.C18
@@ -104,15 +108,109 @@ example : ∃ ys, binaryPartition [4, 7, 1, 9, 3] none = some ys ∧
     splitsAll [4, 7, 1, 9, 3] 2 (ys.map (fun p => [p.1, p.2])) = true :=
   binary_partition_spec _ (by decide) (by decide)
 
-/-- `_asynchronous_iter`, padded (general) branch, any number of iterators of any lengths: any two
-results of two different iterators occur together in some yield.  The index pattern `(j·k + l) mod L'`
-is a family of Latin squares because the padding `L'` (see `get_padding_spec`) has no divisor in
-`[2, K−1)`, so every difference of two row indices is invertible mod `L'`.
-Full statement (open): the same for `_asynchronous_iter` itself, i.e. also for the
-`_asynchronous_iter_small_lists` branch and the single-entry edge case (checked by the Spec oracle). -/
-theorem async_iter_covers_partial (lists : List (List (Pairing L))) :
-    asyncCovers lists (asyncPadded lists) = true :=
-  OFV.Proofs.C18Async.asyncPadded_covers lists
+/-- `pair_within_simultaneously`, every number of labels: for every four labels at least one of their
+three splits into two pairs is co-scheduled (both pairs occur in the same yield).  Induction over the
+levels of `_gen_partitions`: four labels in a part are either separated 2 + 2 by its halves (first
+stage of the next level: all combinations of rounds of two sibling parts occur, by the loop bounds), or
+3 + 1 (second stage: `pair_within` over the parts pairs the two parts, and
+`_gen_pairings_between_partitions` combines a round of a half with all cross pairs of the other
+halves — going down one level while the three labels stay in one half), or they stay together and the
+argument repeats one level down.
+The binned / symmetric variants are still open. -/
+theorem pws_covers (labels : List L) (hl : labels.Nodup) (hn : none ∉ labels) (a b c d : L)
+    (hnd : [a, b, c, d].Nodup) (hmem : ∀ s ∈ [a, b, c, d], s ∈ labels) :
+    quadOk (pairWithinSimultaneously labels) a b c d = true :=
+  OFV.Proofs.C18Pws.pws_covers labels hl hn a b c d hnd hmem
+
+example : quadOk (pairWithinSimultaneously ((List.range 9).map some)) (some 0) (some 3) (some 5) (some 8) = true :=
+  pws_covers _ (by decide) (by decide) _ _ _ _ (by decide) (by decide)
+
+/-- `pair_within_simultaneously`, the full Spec predicate the oracle evaluates (one bin), every number
+of labels: every yield uses no label twice and only given labels (in fact every yield is a perfect
+matching of *all* labels: pairs plus bare labels), and every four labels have a co-scheduled split. -/
+theorem pws_spec (labels : List L) (hl : labels.Nodup) (hn : none ∉ labels) :
+    quadsCovered [labels] (pairWithinSimultaneously labels) = true :=
+  OFV.Proofs.C18Pws.pws_spec labels hl hn
+
+example : quadsCovered [(List.range 7).map some] (pairWithinSimultaneously ((List.range 7).map some)) = true :=
+  pws_spec _ (by decide) (by decide)
+
+/-- `_asynchronous_iter(iterators, flatten=True)`, all three branches (single-entry edge case,
+`_asynchronous_iter_small_lists` through `binary_partition_iterator`, and the padded Latin-square pattern
+`(j·k + l) mod L'` with `L'` from `_get_padding`): when some iterator is non-empty and no result is the
+empty tuple the call succeeds and any two results of two different iterators occur together in a yield. -/
+theorem async_iter_covers (lists : List (List (Pairing L))) (hne : ∀ l ∈ lists, ∀ x ∈ l, x ≠ [])
+    (hsome : ∃ l ∈ lists, l ≠ []) : ∃ ys, asyncIter lists = some ys ∧ asyncCovers lists ys = true := by
+  obtain ⟨ys, h1, h2⟩ := OFV.Proofs.C18Async.asyncIter_covers lists hne hsome
+  refine ⟨ys, h1, ?_⟩
+  simp only [asyncCovers, List.all_eq_true, Bool.or_eq_true, beq_iff_eq, List.any_eq_true, Bool.and_eq_true,
+    within, List.contains_iff_mem]
+  intro li hli lj hlj
+  obtain ⟨A, a⟩ := li
+  obtain ⟨B, b⟩ := lj
+  by_cases hab : a = b
+  · exact Or.inl hab
+  · right
+    have ha := List.mem_zipIdx hli
+    have hb := List.mem_zipIdx hlj
+    simp only [Nat.zero_add, Nat.sub_zero] at ha hb
+    obtain ⟨_, ha1, ha2⟩ := ha
+    obtain ⟨_, hb1, hb2⟩ := hb
+    intro x hx y hy
+    simp only at hx hy
+    rw [ha2] at hx; rw [hb2] at hy
+    by_cases hlt : a < b
+    · obtain ⟨r, hr, s1, s2⟩ := h2 a b hlt hb1 x y hx hy
+      exact ⟨r, hr, s1, s2⟩
+    · obtain ⟨r, hr, s1, s2⟩ := h2 b a (by omega) ha1 y x hy hx
+      exact ⟨r, hr, s2, s1⟩
+
+/-- `pair_within_simultaneously_binned`, any `2^s` bins of pairwise distinct labels (not all empty): the
+call does not raise, and for every four labels whose bin indices XOR to 0 (the labels allowed by the
+symmetries) one of their three splits is co-scheduled.  Same bin: `pws_covers` through `_parallel_iter`;
+two bins: `pair_within_spec` through `_asynchronous_iter`; four bins: one of the three pairings uses a
+gap below `num_bins / 2` (the two numbers with the top bit set XOR to one without), and the cross pairs of
+`pair_between_spec` are brought together by `_asynchronous_iter`. -/
+theorem pws_binned_covers (bins : List (List L)) (s : Nat) (hlen : bins.length = 2 ^ s)
+    (hnd : bins.flatten.Nodup) (hnn : none ∉ bins.flatten) (hsome : ∃ b ∈ bins, b ≠ []) :
+    (pwsBinned bins).2 = true ∧
+    ∀ (i1 i2 i3 i4 : Nat) (a b c d : L), a ∈ bins.getD i1 [] → b ∈ bins.getD i2 [] → c ∈ bins.getD i3 [] →
+      d ∈ bins.getD i4 [] → [a, b, c, d].Nodup → i1 ^^^ i2 ^^^ i3 ^^^ i4 = 0 →
+      quadOk (pwsBinned bins).1 a b c d = true := by
+  obtain ⟨h1, h2⟩ := OFV.Proofs.C18Binned.binned_covers (bins := bins) (s := s) ⟨hlen, hnd, hnn, hsome⟩
+  exact ⟨h1, fun i1 i2 i3 i4 a b c d ha hb hc hd hn hx => h2 i1 i2 i3 i4 a b c d ⟨ha, hb, hc, hd, hn, hx⟩⟩
+
+/-- `pair_within_simultaneously_symmetric(num_fermions, num_symmetries)`, all `num_fermions ≥ 1` and all
+numbers of symmetries: the call does not raise and every four Majoranas whose bin indices
+(`index mod 2^num_symmetries`) XOR to 0 have a co-scheduled split. -/
+theorem pws_symmetric_covers (nf ns : Nat) (hnf : 1 ≤ nf) :
+    (pwsSymmetric nf ns).2 = true ∧
+    ∀ (i1 i2 i3 i4 : Nat), i1 < 2 * nf → i2 < 2 * nf → i3 < 2 * nf → i4 < 2 * nf →
+      [i1, i2, i3, i4].Nodup →
+      (i1 % 2 ^ ns) ^^^ (i2 % 2 ^ ns) ^^^ (i3 % 2 ^ ns) ^^^ (i4 % 2 ^ ns) = 0 →
+      quadOk (pwsSymmetric nf ns).1 (some i1) (some i2) (some i3) (some i4) = true :=
+  OFV.Proofs.C18Binned.symmetric_covers nf ns hnf
+
+/-- `pair_within_simultaneously_binned`: the full Spec predicate the oracle evaluates — the call does not
+raise, every yield uses no label twice and only given labels (it takes at most one result of every
+iterator of `_parallel_iter` / `_asynchronous_iter`), and every four labels whose bin indices XOR to 0
+have a co-scheduled split. -/
+theorem pws_binned_spec (bins : List (List L)) (s : Nat) (hlen : bins.length = 2 ^ s)
+    (hnd : bins.flatten.Nodup) (hnn : none ∉ bins.flatten) (hsome : ∃ b ∈ bins, b ≠ []) :
+    (pwsBinned bins).2 = true ∧ quadsCovered bins (pwsBinned bins).1 = true :=
+  OFV.Proofs.C18Valid.binned_spec (bins := bins) (s := s) ⟨hlen, hnd, hnn, hsome⟩
+
+/-- `pair_within_simultaneously_symmetric`: the full Spec predicate, all `num_fermions ≥ 1`, all
+`num_symmetries` (bins: Majorana `i` in bin `i mod 2^num_symmetries`). -/
+theorem pws_symmetric_spec (nf ns : Nat) (hnf : 1 ≤ nf) :
+    (pwsSymmetric nf ns).2 = true ∧
+      quadsCovered ((List.range (2 ^ ns)).map (fun b =>
+        ((List.range (2 * nf)).filter (fun i => i % 2 ^ ns = b)).map some)) (pwsSymmetric nf ns).1 = true :=
+  OFV.Proofs.C18Valid.symmetric_spec nf ns hnf
+
+example : quadOk (pwsSymmetric 4 1).1 (some 0) (some 2) (some 3) (some 7) = true :=
+  (pws_symmetric_covers 4 1 (by decide)).2 0 2 3 7 (by decide) (by decide) (by decide) (by decide)
+    (by decide) (by decide)
 
 /-- `partition_iterator(qubit_list, k)` (default number of iterations), every list length and every
 `1 ≤ k ≤ n`: every yield is a `k`-partition of the qubits and every `k`-subset is perfectly split (one
